@@ -46,8 +46,8 @@ func (e vkC04Ev) String() string {
 		return fmt.Sprintf("adv(%ds)", e.D)
 	case "p", "al":
 		return fmt.Sprintf("%s(ttl=%d,cut=%d,sig=%d)", e.Kind, e.TTL, e.Cut, e.Sig)
-	case "neg":
-		return fmt.Sprintf("neg(ttl=%d,min=%d,cut=%d,val=%v)", e.TTL, e.Min, e.Cut, e.Val)
+	case "neg", "negq":
+		return fmt.Sprintf("%s(ttl=%d,min=%d,cut=%d,val=%v)", e.Kind, e.TTL, e.Min, e.Cut, e.Val)
 	}
 	return e.Kind
 }
@@ -57,7 +57,8 @@ func vkC04Events(thorough bool) []vkC04Ev {
 		{Kind: "p", TTL: 1}, {Kind: "p", TTL: 7}, {Kind: "p", TTL: 30, Cut: 3}, {Kind: "p", TTL: 1, Cut: 3}, {Kind: "p", TTL: 300, Sig: 7},
 		{Kind: "al", TTL: 7}, {Kind: "al", TTL: 30, Cut: 3}, {Kind: "al", TTL: 30},
 		{Kind: "neg", TTL: 30, Min: 7}, {Kind: "neg", TTL: 30, Min: 30, Cut: 3, Val: true}, {Kind: "neg", TTL: 30, Min: 7, Val: true},
-		{Kind: "nn"}, {Kind: "xn"},
+		{Kind: "negq", TTL: 30, Min: 30, Cut: 3, Val: true}, {Kind: "negq", TTL: 30, Min: 30, Val: true},
+		{Kind: "nn"}, {Kind: "xn"}, {Kind: "qq"},
 		{Kind: "adv", D: 1}, {Kind: "adv", D: 4}, {Kind: "adv", D: 6}, {Kind: "adv", D: 25},
 		{Kind: "purge"},
 	}
@@ -104,6 +105,8 @@ const (
 	vkNName  = "n.t."
 	vkNNName = "nn.t."
 	vkXNName = "x.n.t."
+	vkQ5Name = "q5.t." // second denied name, covered by a DIFFERENT NSEC (q0.t. -> q9.t.) of the same zone
+	vkQ7Name = "q7.t." // probe inside that second span
 )
 
 func vkSig(owner string, covered uint16, ttl uint32, exp time.Time) *dns.RRSIG {
@@ -175,19 +178,32 @@ func vkNewC04World(prefetch bool) *vkC04World {
 			}
 			w.model["fresh:"+vkAlName] = pc
 			bound(cut)
-		case vkNName, vkNNName, vkXNName:
+		case vkNName, vkNNName, vkXNName, vkQ5Name, vkQ7Name:
 			ttl, min, cut, val := uint32(30), uint32(30), 0, false
-			if ev.Kind == "neg" {
+			famQ := strings.HasPrefix(strings.ToLower(q.Name), "q")
+			if (ev.Kind == "neg" && !famQ) || (ev.Kind == "negq" && famQ) {
 				ttl, min, cut, val = ev.TTL, ev.Min, ev.Cut, ev.Val
 			}
 			m.Rcode = dns.RcodeNameError
+			if famQ && strings.ToLower(q.Name) == vkQ5Name {
+				m.Rcode = dns.RcodeSuccess // NODATA: q5.t. exists (TXT only)
+			}
 			exp := now.Add(24 * time.Hour)
 			soa := &dns.SOA{Hdr: dns.RR_Header{Name: "t.", Rrtype: dns.TypeSOA, Class: dns.ClassINET, Ttl: ttl}, Ns: "ns.t.", Mbox: "h.t.", Serial: 1, Refresh: 1, Retry: 1, Expire: 1, Minttl: min}
 			m.Ns = []dns.RR{soa, vkSig("t.", dns.TypeSOA, ttl, exp)}
 			if val {
-				n1 := &dns.NSEC{Hdr: dns.RR_Header{Name: "m.t.", Rrtype: dns.TypeNSEC, Class: dns.ClassINET, Ttl: ttl}, NextDomain: "o.t.", TypeBitMap: []uint16{dns.TypeA, dns.TypeRRSIG, dns.TypeNSEC}}
+				span := [2]string{"m.t.", "o.t."}
+				bitmap := []uint16{dns.TypeA, dns.TypeRRSIG, dns.TypeNSEC}
+				if famQ {
+					span = [2]string{vkQ5Name, "q9.t."}
+					bitmap = []uint16{dns.TypeTXT, dns.TypeRRSIG, dns.TypeNSEC}
+				}
+				n1 := &dns.NSEC{Hdr: dns.RR_Header{Name: span[0], Rrtype: dns.TypeNSEC, Class: dns.ClassINET, Ttl: ttl}, NextDomain: span[1], TypeBitMap: bitmap}
 				n2 := &dns.NSEC{Hdr: dns.RR_Header{Name: "t.", Rrtype: dns.TypeNSEC, Class: dns.ClassINET, Ttl: ttl}, NextDomain: "a0.t.", TypeBitMap: []uint16{dns.TypeSOA, dns.TypeNS, dns.TypeRRSIG, dns.TypeNSEC, dns.TypeDNSKEY}}
-				m.Ns = append(m.Ns, n1, vkSig("m.t.", dns.TypeNSEC, ttl, exp), n2, vkSig("t.", dns.TypeNSEC, ttl, exp))
+				m.Ns = append(m.Ns, n1, vkSig(span[0], dns.TypeNSEC, ttl, exp))
+				if m.Rcode == dns.RcodeNameError {
+					m.Ns = append(m.Ns, n2, vkSig("t.", dns.TypeNSEC, ttl, exp))
+				}
 				m.AuthenticatedData = true
 				middleware.MarkValidatedNegativeProofResponse(ctx, m, middleware.ValidatedNegativeProof{
 					Subject: strings.ToLower(q.Name), Zone: "t.", Kind: middleware.ValidatedNegativeProofNSEC, Aggressive: true})
@@ -196,7 +212,11 @@ func vkNewC04World(prefetch bool) *vkC04World {
 			if d := time.Duration(min) * time.Second; d < l {
 				l = d
 			}
-			pc := &vkC04Piece{marker: -2, what: fmt.Sprintf("neg(val=%v)", val), life: clampTTL(l)}
+			fam := "m"
+			if famQ {
+				fam = "q"
+			}
+			pc := &vkC04Piece{marker: -2, what: fmt.Sprintf("neg(val=%v,fam=%s)", val, fam), life: clampTTL(l)}
 			if cut > 0 {
 				pc.lease = now.Add(time.Duration(cut) * time.Second)
 			}
@@ -279,15 +299,43 @@ func (w *vkC04World) checkReply(route vkRoute, qname string, r vkReply, t time.T
 			return v
 		}
 	}
-	if m.Rcode == dns.RcodeNameError && r.stubCalls == 0 {
+	if r.stubCalls == 0 && (m.Rcode == dns.RcodeNameError || (m.Rcode == dns.RcodeSuccess && len(m.Answer) == 0 && len(m.Ns) > 0)) {
 		// served from the exact negative entry, a subtree cut, or an RFC 8198 proof: the
 		// piece is the latest negative admission able to cover this name (permissive: max).
 		var best *vkC04Piece
-		for _, k := range []string{"neg:" + strings.ToLower(qname), "cut", "proof"} {
-			if p := w.model[k]; p != nil && (best == nil || p.deadline.After(best.deadline)) {
+		consider := func(p *vkC04Piece) {
+			if p != nil && !p.deadline.IsZero() && (best == nil || p.deadline.After(best.deadline)) {
 				best = p
 			}
 		}
+		lq := strings.ToLower(qname)
+		consider(w.model["neg:"+lq])
+		for k, p := range w.model {
+			if strings.HasPrefix(k, "cut:") && vkAtOrBelowC04(lq, strings.TrimPrefix(k, "cut:")) {
+				consider(p)
+			}
+		}
+		// a synthesised denial is composed of the SOA, the covering NSEC and the wildcard NSEC:
+		// it inherits the SHORTEST lifetime among them
+		spanKey := "proof:span:m"
+		if strings.HasPrefix(lq, "q") {
+			spanKey = "proof:span:q"
+		}
+		pieces := []*vkC04Piece{w.model["proof:soa"], w.model[spanKey]}
+		if m.Rcode == dns.RcodeNameError {
+			pieces = append(pieces, w.model["proof:wild"]) // NXDOMAIN also needs the wildcard cover
+		}
+		comp := &vkC04Piece{marker: -3, what: "synthesised denial"}
+		for i, p := range pieces {
+			if p == nil {
+				comp = nil
+				break
+			}
+			if i == 0 || p.deadline.Before(comp.deadline) {
+				comp.deadline = p.deadline
+			}
+		}
+		consider(comp)
 		var rrs []dns.RR
 		rrs = append(rrs, m.Ns...)
 		if v := judge(best, "negative state", rrs); v != "" {
@@ -295,6 +343,10 @@ func (w *vkC04World) checkReply(route vkRoute, qname string, r vkReply, t time.T
 		}
 	}
 	return ""
+}
+
+func vkAtOrBelowC04(name, zone string) bool {
+	return name == zone || strings.HasSuffix(name, "."+zone)
 }
 
 // query runs one question: first on the message path (which may admit), then —
@@ -333,8 +385,18 @@ func (w *vkC04World) query(ev vkC04Ev, qname string) (string, string) {
 		if strings.HasPrefix(k, "fresh:neg:") {
 			w.model[strings.TrimPrefix(k, "fresh:")] = f
 			if strings.Contains(f.what, "val=true") {
-				w.model["cut"] = f
-				w.model["proof"] = f
+				// the subtree cut belongs to the denied name; the RFC 8198 store keeps SOA and each
+				// NSEC RRset as separate pieces (same owner => replaced by the newer admission)
+				if !strings.Contains(f.what, "fam=q") {
+					w.model["cut:"+strings.TrimPrefix(k, "fresh:neg:")] = f
+				}
+				w.model["proof:soa"] = f
+				if strings.Contains(f.what, "fam=q") {
+					w.model["proof:span:q"] = f // NODATA proof: SOA + the name's own NSEC only
+				} else {
+					w.model["proof:span:m"] = f
+					w.model["proof:wild"] = f
+				}
 			}
 		}
 	}
@@ -374,6 +436,10 @@ func (w *vkC04World) apply(ev vkC04Ev) (string, string) {
 		return w.query(ev, vkAlName)
 	case "neg":
 		return w.query(ev, vkNName)
+	case "negq":
+		return w.query(ev, vkQ5Name)
+	case "qq":
+		return w.query(ev, vkQ7Name)
 	case "nn":
 		return w.query(ev, vkNNName)
 	case "xn":
@@ -405,7 +471,7 @@ func (w *vkC04World) digest() string {
 	}
 	// the REAL cache's own state for the alphabet (raw, without the expiry-on-read side effect),
 	// so that two histories are merged only when the implementation state agrees as well
-	for _, n := range []string{vkPName, vkAlName, vkNName, vkNNName, vkXNName} {
+	for _, n := range []string{vkPName, vkAlName, vkNName, vkNNName, vkXNName, vkQ5Name, vkQ7Name} {
 		key := CacheKey{Question: dns.Question{Name: n, Qtype: dns.TypeA, Qclass: dns.ClassINET}}.Hash()
 		if v, ok := w.c.store.positive.cache.Get(key); ok {
 			e := v.(*CacheEntry)
